@@ -96,8 +96,25 @@ def expand(spec):
 
 # -- reference model ---------------------------------------------------------------------
 
+_PREP = {}
+
+
+def _prepared(ir_set):
+    """(waves, capabilities) memoised per IR-set object (the object is kept alive so its id stays unique)."""
+    ent = _PREP.get(id(ir_set))
+    if ent is None or ent[0] is not ir_set:
+        if len(_PREP) > 32:
+            _PREP.clear()
+        waves = {w["Key"]: w for w in ir_set["IRWaveList"]}
+        ent = _PREP[id(ir_set)] = (ir_set, waves, _capabilities(ir_set, waves))
+    return ent[1], ent[2]
+
+
 def capabilities(ir_set):
-    waves = {w["Key"]: w for w in ir_set["IRWaveList"]}
+    return _prepared(ir_set)[1]
+
+
+def _capabilities(ir_set, waves):
     supported = [m for m in MODES if any(k[0:2] == MODE_CODE[m] for k in waves)]
     temps = [int(k[2:4]) for k in waves if k[2:4].isdigit()]
     return {
@@ -116,8 +133,7 @@ def lookup(ir_set, on, mode, target, fan, swing, prev):
     on/swing: bool, mode: name, fan: 0..3, prev: None/True/False.
     Returns ("error", supported) | ("unspecified", why) | ("ok", key, text, clamped).
     """
-    waves = {w["Key"]: w for w in ir_set["IRWaveList"]}
-    cap = capabilities(ir_set)
+    waves, cap = _prepared(ir_set)
     toggle = cap["toggle"]
     if mode not in cap["supported"]:
         # "an unsupported mode is refused" is unconditional in the statement, also when a non-toggle remote is
